@@ -7,6 +7,7 @@
 mod apieng;
 mod asmref;
 mod byteseng;
+mod callseng;
 mod common;
 mod ctxeng;
 mod helperseng;
@@ -31,6 +32,8 @@ fn run_engine(prop: &str, s: &mut Sink) {
         "C01" => isaeng::run(s, vm::Eng::Interp),
         "C02" => memeng::run(s, false),
         "C11" => memeng::run(s, true),
+        "C07" => callseng::run_c07(s),
+        "C08" => callseng::run_c08(s),
         "C09" => ctxeng::run(s),
         "C10" => apieng::run(s),
         "C19" => helperseng::run(s),
@@ -59,6 +62,8 @@ pub fn replay_value(rp: &Value) -> Vec<String> {
         "mem" => memeng::replay(rp),
         "ctx" => ctxeng::replay(rp),
         "api" => apieng::replay(rp),
+        "helper-call" => callseng::replay_c08(rp),
+        "local-call" => callseng::replay_c07(rp),
         "helper" => helperseng::replay(rp),
         "verify" => byteseng::replay_verify(rp),
         "interp-total" => byteseng::replay_interp_total(rp),
